@@ -156,6 +156,19 @@ def run(ck):
                         f.write("struct T%d { int x; };\nextern int v%d;\n" % (i, i))
             for k, extra in enumerate((["--merge-extern-blocks"], ["--merge-extern-blocks", "--sort-semantically"], ["--sort-semantically"])):
                 jobs.append(("jabi%s%d" % (tag, k), p, ["--formatter", "none"] + extra + (["--"] + cl if cl else [])))
+        # lists that users supply and bindgen joins per item: several field attributes (annotation + --field-attr), custom attributes and
+        # custom derives on one type (the order of `#[...]` lines is output)
+        p = os.path.join(tmp, "attrs.h")
+        with open(p, "w") as f:
+            for i in range(12):
+                f.write("struct Pk%d {\n  /** <div rustbindgen attribute=\"#[allow(unused)]\"></div> */\n  int len;\n  int tag;\n  char data[8];\n};\n" % i)
+        fl = []
+        for i in range(12):
+            for a in ("cfg(all())", "allow(dead_code)", "deprecated", "doc(hidden)", "allow(clippy::all)"):
+                fl += ["--field-attr", "Pk%d::len=%s" % (i, a)]
+            fl += ["--field-attr", "Pk%d::tag=allow(dead_code)" % i, "--with-attribute-custom-struct", "Pk%d=must_use,allow(non_snake_case),doc(hidden)" % i,
+                   "--with-derive-custom-struct", "Pk%d=Default,PartialEq,Eq,Hash" % i]
+        jobs.append(("jattrs", p, ["--formatter", "none"] + fl))
         byid = {j[0]: j for j in jobs}
         # (a) reference: one fresh process per job; then K more fresh processes under a varied environment
         def fresh(args):
